@@ -20,8 +20,8 @@
     item of [items] for the value [a] with the formatter and runs [unambiguous_ws_b]. *)
 From Coq Require Import ZArith List Bool.
 From V Require Import Base.Int Base.IO Base.Utf8 Model.Scan Model.Items Model.Parse
-  Proofs.Utf8 Proofs.Scan Proofs.C13 Proofs.C13Reads Proofs.C13Fmt Proofs.C13Examples Proofs.C13Names Proofs.C13Digits Proofs.C13Safe.
-From V Require Model.Parsed Model.Format Spec.StrftimeDoc.
+  Proofs.Utf8 Proofs.Scan Proofs.C13 Proofs.C13Reads Proofs.C13Fmt Proofs.C13Examples Proofs.C13Names Proofs.C13Digits Proofs.C13Safe Proofs.C13Time.
+From V Require Model.Parsed Model.Format Model.Strftime Model.Time Spec.StrftimeDoc.
 Import ListNotations.
 Open Scope Z_scope.
 
@@ -205,6 +205,37 @@ Theorem C13_format_parse_remainder_partial : forall a items texts tail ws p,
   parse_and_remainder p (List.concat texts ++ tail) items = (let+ p' := run_writes ws p in pok (p', tail)).
 Proof. exact format_parse_remainder_partial. Qed.
 Print Assumptions C13_format_parse_remainder_partial.
+
+(** ** format_parse_roundtrip at FULL strength for a sub-family in which every numeric item is
+    followed by a literal: NaiveTime with "%H:%M:%S" / %T / %X.  For EVERY time of day, leap seconds
+    included, parsing the formatted text returns the value truncated to whole seconds with the
+    leap-second flag kept -- through formatter, reader and field resolution; first over the item
+    list, then over the format strings (lazily driven StrftimeItems, as parse_from_str does). *)
+Theorem C13_time_hms_roundtrip : forall t, valid_time t ->
+  exists text,
+    Model.Format.write_items (Model.Format.fa_of_time t) Gen.Strftime.SF_T_FMT [] = Model.Format.fok text /\
+    (let+ p := parse Model.Parsed.parsed_new text Gen.Strftime.SF_T_FMT in pr_of (Model.Parsed.to_naive_time p))
+    = pok (trunc_secs t).
+Proof. exact time_hms_roundtrip. Qed.
+Print Assumptions C13_time_hms_roundtrip.
+
+Theorem C13_time_hms_parse_from_str : forall t fmt, valid_time t -> In fmt hms_formats ->
+  exists text,
+    Model.Format.delayed_display (Model.Format.fa_of_time t) (Model.Strftime.sf_new fmt) = Model.Format.fok text /\
+    time_parse_from_str text fmt = pok (trunc_secs t).
+Proof. exact time_hms_parse_from_str. Qed.
+Print Assumptions C13_time_hms_parse_from_str.
+
+Example C13_time_hms_roundtrip_inhabited :
+  valid_time (Model.Time.mk_time 86399 1999999999) /\ valid_time (Model.Time.mk_time 2094 26490000).
+Proof. exact time_hms_roundtrip_inhabited. Qed.
+Print Assumptions C13_time_hms_roundtrip_inhabited.
+
+(* the entry points' lazily driven loops coincide with the loops over the yielded item list *)
+Theorem C13_parse_sf_loop_is_parse_items : forall items fuel p s st, yields st items -> (List.length items < fuel)%nat ->
+  parse_sf_loop fuel p s st = parse_items parse_rfc3339_relaxed p s items.
+Proof. exact parse_sf_loop_items. Qed.
+Print Assumptions C13_parse_sf_loop_is_parse_items.
 
 (* family membership is decided by computation and certifies the round trip of that member *)
 Theorem C13_family_member_sound : forall a items ws p, family_member a items [] = Some ws ->
